@@ -399,8 +399,13 @@ func (p *poller) readWriteLoop() {
 								// handed the connection to a goroutine that closes
 								// it, and the descriptor number must not be reused
 								// between the closed check and EPOLL_CTL_MOD.
+								// Write interest stays armed when the callback (or a
+								// goroutine it started) has left a backlog: only the
+								// flush that drains it may drop it.
 								c.mux.Lock()
-								c.resetRead()
+								if len(c.writeList) == 0 {
+									c.resetRead()
+								}
 								c.mux.Unlock()
 							}
 						}
